@@ -988,6 +988,85 @@ impl Family for Lists {
     }
 }
 
+// ------------------------------------------------------------------------------------------------------------
+// The command line of the real binary: wherever the -R options stand among the sources, a path written as a source
+// is compiled as a source, in the order written, and what follows a -R value is not swallowed by it.
+
+pub struct ArgvOrdersThroughTheBinary;
+const AO_ARGVS: [&[&str]; 8] = [
+    &["main.slice", "extra.slice", "-R", "ref"],
+    &["-R", "ref", "main.slice", "extra.slice"],
+    &["main.slice", "-R", "ref", "extra.slice"],
+    &["-R", "ref", "--", "main.slice", "extra.slice"],
+    &["-R=ref", "main.slice", "extra.slice"],
+    &["-R", "ref", "main.slice", "-R", "ref2", "extra.slice"],
+    &["main.slice", "-R", "ref/common.slice", "extra.slice", "-R", "ref2"],
+    &["extra.slice", "-R", "ref", "main.slice"],
+];
+impl Family for ArgvOrdersThroughTheBinary {
+    fn name(&self) -> String {
+        format!("argv-orders-through-the-binary/{} placements of -R options among two sources (before, between, after, with '--', '-R=value', two -R options): the request a capturing generator receives lists the sources in the order written and the reference files behind them", AO_ARGVS.len())
+    }
+    fn len(&self) -> u64 {
+        AO_ARGVS.len() as u64
+    }
+    fn hang_secs(&self) -> f64 {
+        60.0
+    }
+    fn describe(&self, idx: u64) -> Value {
+        json!({"argv": AO_ARGVS[idx as usize]})
+    }
+    fn run(&self, idx: u64) -> CaseOut {
+        use crate::proc::{encode_reply, run, split_request, Gen, Install, Node as PNode, Scenario, Script, Step};
+        let argv = AO_ARGVS[idx as usize];
+        let mut out = CaseOut::new(hash_str(&format!("c17ao{idx}")));
+        out.validated = 1;
+        out.nontrivial = true;
+        let mut sc = Scenario::default();
+        for (name, text) in [("main.slice", "module Main\nstruct M { c: Common::C }\n"), ("extra.slice", "module Extra\nstruct E { c: Common::C? }\n"), ("ref/common.slice", "module Common\nstruct C {}\n"), ("ref2/other.slice", "module Other\nstruct O {}\n")] {
+            sc.tree.push((name.to_string(), PNode::File(text.as_bytes().to_vec())));
+        }
+        sc.gens.push(Gen { name: "capture".into(), install: Install::Script(Script(vec![Step::ReadAll, Step::Stdout(encode_reply(&[], &[])), Step::Exit(0)])) });
+        // (the generator option first: behind a '--' everything is a source)
+        sc.argv = vec!["-G".to_string(), "{gen0}".to_string()];
+        sc.argv.extend(argv.iter().map(|s| s.to_string()));
+        let o = run(&sc, std::time::Duration::from_secs(20));
+        let desc = || format!("argv {:?}\nexit {:?}\nstderr {}", sc.argv, o.exit_code, truncate(&o.stderr_text(), 400));
+        if o.timed_out || o.signal.is_some() || o.panic_location().is_some() {
+            out.violate("c17/argv-orders/crash-or-hang", desc());
+            return out;
+        }
+        if o.exit_code != Some(0) {
+            out.violate("c17/argv-orders/valid-command-line-not-accepted", desc());
+            return out;
+        }
+        let Some(stdin) = o.gens.get(0).and_then(|g| g.stdin.clone()) else {
+            out.violate("c17/argv-orders/generator-not-run", desc());
+            return out;
+        };
+        let decoded = split_request(&stdin, &[]).ok_or("arguments".to_string()).and_then(|r| super::c08::decode_request(r));
+        match decoded {
+            Err(e) => out.violate("c17/argv-orders/request-undecodable", format!("{e}\n{}", desc())),
+            Ok((sources, references)) => {
+                let paths = |v: &Vec<crate::model::tree::Node>| v.iter().map(|n| n.get("path").unwrap_or("?").to_string()).collect::<Vec<_>>();
+                let want_src: Vec<String> = argv.iter().filter(|a| ["main.slice", "extra.slice"].contains(a)).map(|s| s.to_string()).collect();
+                if paths(&sources) != want_src {
+                    out.violate("c17/argv-orders/sources-of-the-request", format!("the paths written as sources are {want_src:?}, the request lists the sources {:?} (references {:?})\n{}", paths(&sources), paths(&references), desc()));
+                }
+                let mut want_ref = vec!["ref/common.slice".to_string()];
+                if argv.iter().any(|a| *a == "ref2") {
+                    want_ref.push("ref2/other.slice".to_string());
+                }
+                if paths(&references) != want_ref {
+                    out.violate("c17/argv-orders/references-of-the-request", format!("expected the reference files {want_ref:?}, the request lists {:?}\n{}", paths(&references), desc()));
+                }
+                out.class = format!("{}src+{}ref", sources.len(), references.len());
+            }
+        }
+        out
+    }
+}
+
 pub fn meta(m: &mut PropMeta) {
     m.rule = "REAL directory trees in a private scratch directory, the harness' cwd inside the tree, the real slicec::compile_from_options in-process. Universe (depth 4): a.slice b.slice notes.txt sub/c.slice pkg/{d.slice,readme.md,x.slice.bak,v2.slice/f.slice,deep/{slice,er/e.slice}} plus every subset of 6 optional entries (2^6 trees): empty directory pkg/empty/, file link sub/la.slice->../a.slice, directory link dl->sub, cycle sub/loop->., dangling link pkg/gone.slice, invalid-UTF-8 file pkg/deep/bad.slice (the 'unreadable' entry; the harness runs as root so permission bits are useless). Argument lists are EVERY (sources, references) pair of lists over the tree's 12-19 path spellings: a.slice ./a.slice sub/../a.slice <abs>/a.slice b.slice sub/c.slice, directories sub ./sub/ . (reference: expanded; source: error), missing.slice, notes.txt, and per option pkg/empty, sub/la.slice, dl/c.slice, dl, sub/loop/c.slice, pkg/gone.slice, pkg/deep/bad.slice. Oracle = reference resolver over the MODEL of the tree (identity = canonical path computed on the model): state.files mapped back to identities must be the source identities in the given order flagged is_source, then the not-yet-present reference identities in argument order with each directory expansion an unordered group, every identity once, every file parsed, no E001; exactly one DuplicateFile at level Warning per repeat within one list (also repeats arising through directory expansion and links) and none across lists; nonexistent / non-.slice / directory-as-source / unreadable reached file => at least one E001 at level Error and nothing parsed (no module, no contents in any returned file). Softenings: when a reference directory expansion runs into the cycle the DuplicateFile count is only bounded from below and an E001 is tolerated (ELOOP depth is the OS's business); a dangling *.slice link (or, in the two special-files trees, a FIFO / a link to /dev/null named *.slice) below a reference directory may be ignored or reported, but listed directly each is an E001; repeats of error entries may or may not be warned about; on error scenarios the returned file list is not compared. A case = (tree, sources list, first reference) and runs every reference list with that first element; the real scenario count is extra_counters.scenarios (= steps = validated), per-scenario outcome classes (files returned, DuplicateFile warnings, E001 present) are extra_counters.scenario_class[..]. Non-trivial scenario = the argument lists reach at least one file twice or contain an error entry; non-trivial case = that already holds for the part shared by all its scenarios (sources + first reference); extra_counters.scenarios_nontrivial counts scenarios.";
     m.explanation = "exhaustive enumeration of argument lists over real directory trees (files, links, cycle, dangling link, unreadable file) against a reference resolver on the model tree";
@@ -1029,5 +1108,6 @@ pub fn families(tier: &str) -> Vec<Box<dyn Family>> {
     };
     v.extend(long);
     v.push(special);
+    v.push(Box::new(ArgvOrdersThroughTheBinary));
     v
 }
